@@ -19,7 +19,7 @@ class Prop(PropBase):
     @classmethod
     def verdict_concerns(cls, v):
         # the wire cases are judged by the terminal oracle, which tags rendering failures as C01
-        return "C19" in v or "C01@" in v or v.startswith("FAIL C10")
+        return "C19" in v or "C01@" in v or v.startswith("FAIL C10") or "streamed to a fresh terminal" in v
 
     @staticmethod
     def cases(tier, rng):
@@ -73,6 +73,29 @@ class Prop(PropBase):
                 c = "5 99 0 0 0 9 0 0 %s 22 24 27 25" % pr
                 d = "5 100 0 0 0 9 0 0 %d %d 0 0 22 24 27 25" % (kind, v)
                 cs.append(Case("T 0 ; we %s ; we %s ; we %s ; we %s" % (a, b, c, d), sweep="wire-predecessors", cfgs=["%d 1 %d 0 5 2" % (j % 3, v % 6)]))
+        # the colour on a terminal of declared size whose cursor is known, written INTO THE LAST COLUMN and then again (the
+        # next row, the same colour): whatever the library does at the right margin, the index is still in effect or re-sent
+        for v in range(16, 256):
+            kind = 1 if v < 232 else 2
+            for plane in (0, 1):
+                col = "%d %d 0 0" % (kind, v)
+                at = ("%s 0 9 0 0" % col) if plane == 0 else ("0 9 0 0 %s" % col)
+                e1 = "5 97 0 0 %s 22 24 27 25" % at
+                e2 = "5 98 0 0 %s 22 24 27 25" % at
+                w = 3 + v % 3
+                line = "T 0 ; sz %d 3 ; mv %d 0 ; we %s ; mv 0 1 ; we %s ; mv %d 1 ; we %s ; mv %d 2 ; we %s ; we %s" % (w, w - 1, e1, e2, w - 2, e1, w - 1, e2, e1)
+                cs.append(Case(line, sweep="wire-last-column", cfgs=["%d 1 %d 0 %d 3" % (v % 3, v % 6, w)]))
+        # a string built by one of class string's constructors, ONE element of it given a palette colour in place (operator[],
+        # an iterator), then streamed to a terminal: the wire is judged as the terminal script `ws <elements>` it is
+        for v in range(16, 256):
+            kind = 1 if v < 232 else 2
+            for plane in (0, 1):
+                col = "%d %d 0 0" % (kind, v)
+                at = ("%s 0 9 0 0" % col) if plane == 0 else ("0 9 0 0 %s" % col)
+                el = "5 120 0 0 %s 22 24 27 25" % at
+                ctor = ["ca 0 616263 0 2 0 0 0 4 0 0 22 24 27 25", "cs 0 616263", "cn 0 3 5 97 0 0 0 9 0 0 0 9 0 0 22 24 27 25", "cz 0 616263"][(v + plane) % 4]
+                how = ["ix 0 1", "bi 0 1", "ri 0 1"][v % 3]
+                cs.append(Case("P %s ; %s %s ; tw 0 ; ob 0" % (ctor, how, el), sweep="string-recoloured-in-place"))
         # palette colours must survive attribute transitions: same colour, effects switching on/off around it
         effs = [(i, u, p, b) for i in (1, 2, 22) for u in (4, 24) for p in (7, 27) for b in (5, 25)]
         vals = [16, 17, 52, 196, 231, 232, 255] if tier == "quick" else list(range(16, 256, 5))
